@@ -851,6 +851,193 @@ churn_send(void *a)
 // closed on the PULL side (2) or on the PUSH side (3): the completion callback of the transfer and
 // the pipe's teardown race.  The message may be lost with the connection (it departed), but
 // nothing may be left pointing at the pipe: the sockets are used again afterwards.
+// ---- a visitor that is not a healthy puller ------------------------------------------------------------------------
+// PUSH (send buffer 0 / 2) holds nothing / buffered messages / buffered messages and a WAITING sender when a raw
+// peer turns up on its socket:// listener and goes away again:
+//   0 wrong protocol (announces PUSH): never a peer - nothing may be handed to it, the waiting sender keeps waiting
+//   1 announces PULL, sends a data frame to the PUSH socket (which PUSH discards), takes what it is offered,
+//     closes                       2 announces PULL, takes what it is offered, closes
+//   3 like 1, but after its frame it only closes (reads nothing)
+// Afterwards, with nobody connected, further non-blocking sends are made and finally a healthy raw puller
+// connects and reads everything.  Conservation over the whole history: every message whose send was accepted
+// (returned 0 / aio result 0) was read by the visitor while it was connected or reaches the final puller, once,
+// in order per connection; a refused message stays with the caller.  Messages handed to visitor 3 before it
+// closed are the only tolerated loss (the connection went down with them).
+#define VIS_MAX 24
+static int vis_state[VIS_MAX]; // 0 unused, 1 accepted, 2 refused, 3 waiting (aio)
+static int vis_rx[VIS_MAX];
+static int vis_n;
+static nng_aio *vis_aio;
+static int      vis_aio_tag, vis_aio_done, vis_aio_rv;
+static void
+vis_cb(void *a)
+{
+	(void) a;
+	vis_aio_rv   = (int) nng_aio_result(vis_aio);
+	vis_aio_done = 1;
+	if (vis_aio_rv == 0)
+		vis_state[vis_aio_tag] = 1;
+}
+static nng_msg *
+vis_msg(int tag)
+{
+	nng_msg *m;
+	VH_OK(nng_msg_alloc(&m, 4));
+	vp_put32(nng_msg_body(m), 0xC0600000u + (uint32_t) tag);
+	return m;
+}
+static void
+vis_send_nb(nng_socket push, const char *when)
+{
+	int      tag = vis_n++;
+	nng_msg *m   = vis_msg(tag);
+	int      rv  = nng_sendmsg(push, m, NNG_FLAG_NONBLOCK);
+	if (rv == 0) {
+		vis_state[tag] = 1;
+	} else if (rv == NNG_EAGAIN) {
+		vis_state[tag] = 2;
+		if (nng_msg_len(m) != 4 || vp_get32(nng_msg_body(m)) != 0xC0600000u + (uint32_t) tag)
+			vs_fail("C06:ownership", "refused send (%s) returned a modified message", when);
+		nng_msg_free(m);
+	} else {
+		vs_fail("C06:send-result", "non-blocking send %s -> %s", when, nng_strerror(rv));
+	}
+	vs_settle();
+}
+// read the frames available on fd; returns how many; `lastp` tracks per-connection order
+static int
+vis_read(int fd, vp_rd *rd, const char *who, int *lastp)
+{
+	int n = 0;
+	for (int idle = 0; idle < 3;) {
+		const uint8_t *pl;
+		size_t         len;
+		int            r = vp_next_frame(fd, rd, &pl, &len);
+		if (r != 1) {
+			idle++;
+			vs_settle();
+			if (r < 0)
+				break;
+			continue;
+		}
+		idle = 0;
+		if (len != 4 || (vp_get32(pl) & 0xffff0000u) != 0xC0600000u ||
+		    (int) (vp_get32(pl) & 0xffff) >= vis_n)
+			vs_fail("C06:phantom", "%s received a frame of %zu bytes that was never sent", who, len);
+		int tag = (int) (vp_get32(pl) & 0xffff);
+		if (vis_state[tag] == 2)
+			vs_fail("C06:phantom", "%s received message %d whose send had been refused", who, tag);
+		if (vis_rx[tag]++)
+			vs_fail("C06:duplicate", "%s received message %d, which had been delivered already", who, tag);
+		if (tag < *lastp)
+			vs_fail("C06:order", "%s received message %d after %d", who, tag, *lastp);
+		*lastp = tag;
+		n++;
+	}
+	return n;
+}
+static void
+run_visitor(void *argp)
+{
+	(void) argp;
+	vh_init(0);
+	memset(vis_state, 0, sizeof(vis_state));
+	memset(vis_rx, 0, sizeof(vis_rx));
+	vis_n = vis_aio_done = 0;
+	vis_aio_tag = -1;
+	int kind    = vs_choose(VK_ENV, 4);
+	int sb      = vs_choose(VK_ENV, 2) ? 2 : 0;
+	int pending = vs_choose(VK_ENV, 3); // 0 nothing, 1 buffered only, 2 buffered + a waiting sender
+	nng_socket   push;
+	nng_listener l;
+	VH_OK(nng_push0_open(&push));
+	VH_OK(nng_socket_set_int(push, NNG_OPT_SENDBUF, sb));
+	if (pending >= 1)
+		for (int i = 0; i < sb + 1; i++)
+			vis_send_nb(push, "before anybody connected");
+	if (pending == 2) {
+		vis_aio_tag = vis_n++;
+		VH_OK(nng_aio_alloc(&vis_aio, vis_cb, NULL));
+		nng_aio_set_timeout(vis_aio, NNG_DURATION_INFINITE);
+		nng_aio_set_msg(vis_aio, vis_msg(vis_aio_tag));
+		vis_state[vis_aio_tag] = 3;
+		nng_socket_send(push, vis_aio);
+		vs_settle();
+	}
+	// the visitor
+	static vp_rd rdv, rdf;
+	memset(&rdv, 0, sizeof(rdv));
+	memset(&rdf, 0, sizeof(rdf));
+	int fd   = vp_attach(push, &l);
+	int last = -1, ntaken = 0;
+	vs_settle();
+	int peer = vp_handshake(fd, kind == 0 ? SP_PUSH : SP_PULL);
+	(void) peer;
+	vs_settle();
+	if (kind == 1 || kind == 3) {
+		if (vp_send(fd, NULL, 0, "junk", 4) != 0)
+			vs_fail("harness:peer", "visitor write");
+		vs_settle();
+	}
+	if (kind != 3)
+		ntaken = vis_read(fd, &rdv, "the visitor", &last);
+	if (kind == 0 && ntaken > 0)
+		vs_fail("C06:wrong-peer", "a peer that announced protocol PUSH was sent %d message(s)", ntaken);
+	if (kind == 0 && pending == 2 && vis_aio_done)
+		vs_fail("C06:wrong-peer",
+		    "the waiting send completed (%s) when a peer of the wrong protocol connected; no puller "
+		    "was ever there",
+		    nng_strerror(vis_aio_rv));
+	close(fd);
+	vs_settle();
+	vs_sleep(5);
+	vs_settle();
+	// nobody is connected now
+	for (int i = 0; i < 3; i++)
+		vis_send_nb(push, "after the visitor left");
+	// the healthy puller
+	int fd2 = vp_attach_more(l);
+	vs_settle();
+	if (fd2 < 0 || vp_handshake(fd2, SP_PULL) != SP_PUSH)
+		vs_fail("C06:lost", "a healthy puller cannot connect after the visit");
+	last = -1;
+	vis_read(fd2, &rdf, "the final puller", &last);
+	vs_sleep(20);
+	vis_read(fd2, &rdf, "the final puller", &last);
+	if (pending == 2) {
+		if (!vis_aio_done)
+			vs_fail("C06:lost", "the waiting send (message %d) is still waiting although a puller "
+			    "reads everything", vis_aio_tag);
+		if (vis_aio_rv != 0)
+			vs_fail("C06:send-result", "the waiting send failed: %s", nng_strerror(vis_aio_rv));
+	}
+	for (int t = 0; t < vis_n; t++)
+		if (vis_state[t] == 1 && !vis_rx[t] && kind != 3)
+			vs_fail("C06:lost",
+			    "message %d was accepted (visitor kind %d, sendbuf %d, pending %d) and reached neither "
+			    "the visitor while it was connected nor the puller that came afterwards",
+			    t, kind, sb, pending);
+	if (kind == 3) { // tolerated: what was in flight to the visitor when it closed (at most sb + 2)
+		int lost = 0, lost_after = 0;
+		for (int t = 0; t < vis_n; t++)
+			if (vis_state[t] == 1 && !vis_rx[t]) {
+				lost++;
+				if (t >= vis_n - 3)
+					lost_after++;
+			}
+		if (lost_after)
+			vs_fail("C06:lost", "%d message(s) accepted AFTER the visitor had closed never arrived "
+			    "(sendbuf %d, pending %d)", lost_after, sb, pending);
+	}
+	vs_nontrivial();
+	vs_outcome("kind=%d sb=%d pending=%d taken=%d", kind, sb, pending, ntaken);
+	close(fd2);
+	if (pending == 2)
+		nng_aio_free(vis_aio);
+	nng_socket_close(push);
+	vh_fini();
+}
+
 static void
 run_churn2(void *argp)
 {
@@ -1170,6 +1357,15 @@ main(int argc, char **argv)
 		for (int i = 0; i < 1; i++)
 			if (i == 0 || vx_is_thorough())
 				orc_explore_tiers(&OR[i]);
+	}
+	{
+		vx_cfg c;
+		memset(&c, 0, sizeof(c));
+		c.prop           = "C06";
+		c.scenario       = "visitor-not-a-puller";
+		c.run            = run_visitor;
+		c.budget[VB_ENV] = -1;
+		vx_explore(&c, NULL);
 	}
 	SR_PROP = "C06";
 	sr_explore("C06", 2, vx_is_thorough());
